@@ -180,6 +180,25 @@ func (x *Exec) libCall(st *State, fi int, full string, callee *ssa.Function, arg
 		k(st, fresh("log"))
 		return true
 	}
+	if full == "golang.org/x/exp/maps.Keys" && len(args) == 1 {
+		// maps.Keys(m): some slice that lists exactly the keys of m, each once
+		// (len == len(m), every key occurs, every element is a key)
+		if mt, ok := underMap(args[0].Typ); ok {
+			x.libUsed[full] = true
+			st2 := st
+			r := x.freshValue(st2, "lib.Keys", types.NewSlice(mt.Key()))
+			ks := x.sortOf(mt.Key())
+			kq := Term{"?mk", ks}
+			j := Term{"?mj", "Int"}
+			el := x.loadElem(st2, st2.heap, st2.epoch, mt.Key(), sArr(r.T), sIdx(sOff(r.T), j))
+			inRange := And(Le(IntLit(0), j), Lt(j, sLen(r.T)))
+			st2.assume(Eq(sLen(r.T), x.mapLen(st2, st2.heap, st2.epoch, args[0].T, mt)))
+			st2.assume(Term{fmt.Sprintf("(forall ((?mk %s)) (=> %s (exists ((?mj Int)) %s)))", ks, x.mapHas(st2, st2.heap, st2.epoch, args[0].T, mt, kq).S, And(inRange, Eq(el, kq)).S), "Bool"})
+			st2.assume(Term{fmt.Sprintf("(forall ((?mj Int)) (! (=> %s %s) :pattern (%s)))", inRange.S, x.mapHas(st2, st2.heap, st2.epoch, args[0].T, mt, el).S, el.S), "Bool"})
+			k(st2, r)
+			return true
+		}
+	}
 	if full == "slices.Contains" && len(args) == 2 && args[0].T.Sort == "Slice" {
 		// slices.Contains(s, v) == exists j. 0 <= j < len(s) && s[j] == v
 		if et := elemTypeOf(args[0].Typ); et != nil {
